@@ -21,55 +21,52 @@ Definition expand_ev (T : list block) (e : cev) : list xev :=
 
 Definition expand (T : list block) (evs : list cev) : list xev := flat_map (expand_ev T) evs.
 
-Lemma junk_run_acc : forall P n now id a a',
-  junk_run P n now id a = Some a' -> a' = xrun_acc P a (junk_events n now id).
+Lemma junk_run_acc : forall P n now id a ok,
+  fst (junk_run P n now id a ok) = xrun_acc P a (junk_events n now id).
 Proof.
-  induction n as [|k IH]; intros now id a a'; cbn [junk_run junk_events].
-  { intros H; injection H as <-. reflexivity. }
+  induction n as [|k IH]; intros now id a ok; cbn [junk_run junk_events]; [reflexivity|].
   destruct (xstep_acc_o P a (Dl now (junk_block id))) as [a1 mo] eqn:X.
-  destruct (_ && _); [|discriminate]. intros H. apply IH in H. subst a'.
-  unfold xrun_acc at 2. cbn [fold_left]. unfold xstep_acc at 2. rewrite X. reflexivity.
+  rewrite IH. unfold xrun_acc at 2. cbn [fold_left]. unfold xstep_acc at 2. rewrite X. reflexivity.
 Qed.
 
-Lemma agree_x_acc : forall P T evs obs a a',
-  agree_x P T a evs obs = Some a' -> a' = xrun_acc P a (expand T evs).
+Lemma agree_x_acc : forall P T evs obs a ok a' ok',
+  agree_x P T a ok evs obs = Some (a', ok') -> a' = xrun_acc P a (expand T evs).
 Proof.
-  intros P T evs. induction evs as [|e evs IH]; intros obs a a'; destruct obs as [|o obs]; cbn [agree_x];
+  intros P T evs. induction evs as [|e evs IH]; intros obs a ok a' ok'; destruct obs as [|o obs]; cbn [agree_x];
     try discriminate.
-  { intros H; injection H as <-. reflexivity. }
+  { intros H; injection H as <- _. reflexivity. }
   unfold expand. cbn [flat_map]. fold (expand T evs). unfold xrun_acc. rewrite fold_left_app.
   fold (xrun_acc P a (expand_ev T e)). fold (xrun_acc P (xrun_acc P a (expand_ev T e)) (expand T evs)).
-  assert (St : forall nx, nx = Some (xrun_acc P a (expand_ev T e)) \/ nx = None ->
+  assert (St : forall nx, (exists k, nx = Some (xrun_acc P a (expand_ev T e), k)) \/ nx = None ->
           match nx with
-          | Some a1 => if readback_ok (acc_state a1) o then agree_x P T a1 evs obs else None
+          | Some (a1, k) => agree_x P T a1 (ok && k && readback_ok (acc_state a1) o) evs obs
           | None => None
-          end = Some a' -> a' = xrun_acc P (xrun_acc P a (expand_ev T e)) (expand T evs)).
-  { intros nx [->| ->]; [|discriminate]. destruct (readback_ok _ o); [|discriminate]. apply IH. }
+          end = Some (a', ok') -> a' = xrun_acc P (xrun_acc P a (expand_ev T e)) (expand T evs)).
+  { intros nx [[k ->]| ->]; [|discriminate]. apply IH. }
   apply St. destruct e as [now id|h id|now id0 n]; cbn [expand_ev].
   - destruct (ev_block T id) as [b|]; [|right; reflexivity].
-    destruct (xstep_acc_o P a (Dl now b)) as [a1 mo] eqn:X.
-    destruct (result_ok mo o); [left|right; reflexivity].
+    destruct (xstep_acc_o P a (Dl now b)) as [a1 mo] eqn:X. left. eexists.
     unfold xrun_acc. cbn [fold_left]. unfold xstep_acc. rewrite X. reflexivity.
-  - destruct (xstep_acc_o P a (Fz h id)) as [a1 mo] eqn:X.
-    destruct (result_ok mo o); [left|right; reflexivity].
+  - destruct (xstep_acc_o P a (Fz h id)) as [a1 mo] eqn:X. left. eexists.
     unfold xrun_acc. cbn [fold_left]. unfold xstep_acc. rewrite X. reflexivity.
-  - destruct (_ && _); [|right; reflexivity].
-    destruct (junk_run P (N.to_nat n) now id0 a) as [a1|] eqn:J; [left|right; reflexivity].
-    apply junk_run_acc in J. rewrite J. reflexivity.
+  - destruct (junk_base <=? id0)%N; [|right; reflexivity]. left.
+    destruct (junk_run P (N.to_nat n) now id0 a (result_ok (mkO false true ENone []) o)) as [a1 k] eqn:J.
+    exists k. pose proof (junk_run_acc P (N.to_nat n) now id0 a (result_ok (mkO false true ENone []) o)) as E.
+    rewrite J in E. cbn [fst] in E. rewrite E. reflexivity.
 Qed.
 
-(** the accumulator that [model_ok_x] hands to the spec: the final state, the
-    held hashes and the steady flag of the expanded history, i.e. the
-    arguments of [kept_all] and [steady] *)
-Lemma check_guard_is_theorem_guard : forall P T evs obs fmain pool g T' a,
-  T = g :: T' -> model_ok_x P T evs obs fmain pool = Some a ->
+(** the accumulator that [model_ok_x] hands to the spec - whether or not the
+    node agreed with the model: the final state, the held hashes and the steady
+    flag of the expanded history, i.e. the arguments of [kept_all] and [steady] *)
+Lemma check_guard_is_theorem_guard : forall P T evs obs fmain pool g T' a ok,
+  T = g :: T' -> model_ok_x P T evs obs fmain pool = Some (a, ok) ->
   acc_state a = xrun P g 0 (expand T evs) /\
   snd (fst a) = held_of P g 0 (expand T evs) /\
   snd a = steady P g 0 (expand T evs).
 Proof.
-  intros P T evs obs fmain pool g T' a -> H. unfold model_ok_x in H.
-  destruct (agree_x P (g :: T') (xinit g 0, [], true) evs obs) as [a1|] eqn:A; [|discriminate].
-  destruct (_ && _); [|discriminate]. injection H as <-.
+  intros P T evs obs fmain pool g T' a ok -> H. unfold model_ok_x in H.
+  destruct (agree_x P (g :: T') (xinit g 0, [], true) true evs obs) as [[a1 ok1]|] eqn:A; [|discriminate].
+  injection H as <- _.
   apply agree_x_acc in A. unfold held_of, steady, acc_state. rewrite A.
   split; [|split; reflexivity].
   clear. generalize (expand (g :: T') evs). intros hist. unfold xrun.
